@@ -1,7 +1,7 @@
 (* Props/C01.v — C01: the external sort (sort_by) returns every input item exactly once in comparator
    order, for every chunk size, both comparators and every in-memory sorting function.
    Only statements, closed by [exact]; proofs live in MergerProofs.v. *)
-From BedV Require Import Base ListFacts AlgebraModel ExtSortModel MergerProofs ChunkProofs PipelineProofs.
+From BedV Require Import Base ListFacts AlgebraModel ExtSortModel MergerProofs ChunkProofs PipelineProofs TextModel BincodeModel BincodeProofs.
 
 (* run formation loses, duplicates and reorders nothing *)
 Theorem C01_runs_concat : forall A cs (l : list A), concat (runs cs l) = l.
@@ -68,4 +68,71 @@ Proof.
   cbv zeta. split; [vm_compute; reflexivity|]. split; [vm_compute; reflexivity|].
   split; [vm_compute; reflexivity|]. split; [vm_compute; reflexivity|].
   eexists. split; vm_compute; reflexivity.
+Qed.
+
+(* ---- merged from C01b.v ---- *)
+(* GenomicRange(String, u64, u64) *)
+Theorem C01_codec_grange : forall c s e, wf_len c -> s <= U64MAX -> e <= U64MAX ->
+  de_all de_grange (ser_grange (c, s, e)) = Some (c, s, e).
+Proof. exact de_all_grange. Qed.
+Print Assumptions C01_codec_grange.
+
+(* BED<N>: the six BED fields and optional_fields (Vec<String>) *)
+Theorem C01_codec_bed : forall b o, wf_bedw b -> Forall wf_len o -> N.of_nat (length o) <= U64MAX ->
+  de_all de_bedrec (ser_bedrec b o) = Some (b, o).
+Proof. exact de_all_bedrec. Qed.
+Print Assumptions C01_codec_bed.
+
+(* NarrowPeak *)
+Theorem C01_codec_npeak : forall x,
+  wf_bedw (np_bed x) -> wf_f (np_signal x) -> wf_optf (np_p x) -> wf_optf (np_q x) -> np_peak x <= U64MAX ->
+  de_all de_npeak (ser_npeak x) = Some x.
+Proof. exact de_all_npeak. Qed.
+Print Assumptions C01_codec_npeak.
+
+(* BroadPeak *)
+Theorem C01_codec_bpeak : forall x,
+  wf_bedw (bp_bed x) -> wf_f (bp_signal x) -> wf_optf (bp_p x) -> wf_optf (bp_q x) ->
+  de_all de_bpeak (ser_bpeak x) = Some x.
+Proof. exact de_all_bpeak. Qed.
+Print Assumptions C01_codec_bpeak.
+
+(* BedGraph<i64> / BedGraph<f64>: the decoder is chosen by the value type *)
+Theorem C01_codec_bgraph : forall x, wf_len (bg_chr x) -> bg_st x <= U64MAX -> bg_en x <= U64MAX ->
+  (match bg_val x with VInt z => (-9223372036854775808 <= z <= 9223372036854775807)%Z | VFloat b => wf_f b end) ->
+  de_all (de_bgraph (match bg_val x with VInt _ => false | VFloat _ => true end)) (ser_bgraph x) = Some x.
+Proof. exact de_all_bgraph. Qed.
+Print Assumptions C01_codec_bgraph.
+
+(* the integer encodings underneath: varint for u64, zigzag for i64 *)
+Theorem C01_codec_varint : forall u r, u <= U64MAX -> de_varint (varint u ++ r) = Some (u, r).
+Proof. exact varint_roundtrip. Qed.
+Print Assumptions C01_codec_varint.
+
+Theorem C01_codec_zigzag : forall z, (-9223372036854775808 <= z <= 9223372036854775807)%Z ->
+  unzigzag (zigzag z) = z /\ zigzag z <= U64MAX.
+Proof. exact zigzag_roundtrip. Qed.
+Print Assumptions C01_codec_zigzag.
+
+(* non-vacuity: a concrete NarrowPeak (chr1, 300, 70000, name None, score 1000, strand -, signal 1.5,
+   p None, q 0.0, peak 2^32) meets the hypotheses; its bytes exercise all four varint widths, both
+   option tags, the enum index and the 8-byte f64 *)
+Example C01_codec_nonvacuous :
+  let x := mkNP (mkBed [99; 104; 114; 49] 300 70000 None (Some 1000) (Some Rev))
+                4609434218613702656 None (Some 0) 4294967296 in
+  (wf_bedw (np_bed x) /\ wf_f (np_signal x) /\ wf_optf (np_p x) /\ wf_optf (np_q x) /\ np_peak x <= U64MAX) /\
+  ser_npeak x = [4; 99; 104; 114; 49;                    (* chrom: length 4, "chr1" *)
+                 251; 44; 1;                             (* start 300: u16 marker *)
+                 252; 112; 17; 1; 0;                     (* end 70000: u32 marker *)
+                 0;                                      (* name None *)
+                 1; 251; 232; 3;                         (* score Some 1000 *)
+                 1; 1;                                   (* strand Some Reverse *)
+                 0; 0; 0; 0; 0; 0; 248; 63;              (* signal 1.5 *)
+                 0;                                      (* p None *)
+                 1; 0; 0; 0; 0; 0; 0; 0; 0;              (* q Some 0.0 *)
+                 253; 0; 0; 0; 0; 1; 0; 0; 0] /\         (* peak 2^32: u64 marker *)
+  de_all de_npeak (ser_npeak x) = Some x.
+Proof.
+  intros x. split; [|split; vm_compute; reflexivity].
+  repeat split; vm_compute; try reflexivity; try exact I; intro H; discriminate H.
 Qed.
